@@ -222,6 +222,7 @@ fn one_run(log: &mut EvLog, seed: u64, thorough: bool, mode: &str) {
                         rng: rand::rngs::StdRng::seed_from_u64(seed * 100 + i as u64 * 10 + k as u64),
                         sent_this: 0,
                         budget: rng.gen_range(1..6),
+                        low_only: rng.gen_bool(0.3),
                         nreq: 0,
                     }
                 })
